@@ -694,7 +694,11 @@ func sigOf(v string) string {
 		return "lock-page-in-file"
 	case strings.Contains(v, "lock page") && strings.Contains(v, "not empty"):
 		return "lock-page-not-empty"
-	case strings.Contains(v, "fails"):
+	case strings.Contains(v, "follower database is"):
+		return "size"
+	case strings.Contains(v, "lock page") && strings.Contains(v, "missing"):
+		return "lock-page-missing"
+	case strings.Contains(v, "fails"), strings.Contains(v, "did not reach"), strings.Contains(v, "stopped before"):
 		return "operation-fails"
 	case strings.Contains(v, "holds pages"):
 		return "page-set"
@@ -982,6 +986,336 @@ type countWriter struct{ n int64 }
 
 func (c *countWriter) Write(b []byte) (int, error) { c.n += int64(len(b)); return len(b), nil }
 
+// ---- follow-mode restore over synthesised LTX replicas crossing the lock page ----
+
+// FStep is one LTX file published to the replica: it moves the database to Commit pages.
+// Level 0 = one L0 file (one TXID); Level 1 = one level-1 file spanning two TXIDs with no L0 files
+// for them (the follower must bridge the gap from the higher level).
+type FStep struct {
+	Commit uint32 `json:"commit"`
+	Level  int    `json:"level"`
+}
+
+// FollowCase: Steps[0] is the snapshot (TXID 1). The first Initial steps are on the replica
+// before `Restore(Follow=true)` starts (they form the initial restore); the remaining ones are
+// published one at a time and must be applied by the follow loop.
+type FollowCase struct {
+	PageSize uint32  `json:"page_size"`
+	Initial  int     `json:"initial"`
+	Steps    []FStep `json:"steps"`
+}
+
+func (c FollowCase) canon() string { b, _ := json.Marshal(c); return "follow|" + string(b) }
+
+func genFollow(r *hx.Rand, ps uint32, kind int) FollowCase {
+	lock := ltx.LockPgno(ps)
+	small := uint32(2 + r.Intn(3))
+	c := FollowCase{PageSize: ps, Initial: 1}
+	L := func(commit uint32, level int) FStep { return FStep{Commit: commit, Level: level} }
+	switch kind {
+	case 0: // everything through the follow loop, L0 files: one-file jump from a small database to the lock page as last page
+		c.Steps = []FStep{L(small, 0), L(lock, 0), L(lock+1, 0), L(lock-1, 0), L(lock, 0), L(lock+3, 0), L(lock, 0), L(small, 0)}
+	case 1: // the initial restore itself ends on the lock page; later files come from level 1 (gap fill)
+		c.Initial = 2
+		c.Steps = []FStep{L(small, 0), L(lock, 0), L(lock+1, 1), L(lock-1, 1), L(lock, 1), L(lock+3, 0), L(lock-1, 0)}
+	case 2: // one-file jump to just beyond / inside, then onto the lock page by growth of one page
+		c.Steps = []FStep{L(small, 0), L(lock-1, 0), L(lock, 0), L(lock+1, 1), L(lock, 0)}
+	case 3:
+		c.Steps = []FStep{L(small, 0), L(lock+3, 0), L(small, 0), L(lock, 1), L(lock+1, 0)}
+	default:
+		c.Initial = 2
+		c.Steps = []FStep{L(small, 0), L(lock+1, 0), L(lock, 0), L(lock-1, 1), L(lock, 1)}
+	}
+	return c
+}
+
+// followPage builds the image of page p written by transaction txid (page 1 is a SQLite header
+// good enough for the follower: page size at offset 16, page count at offset 28).
+func followPage(buf []byte, ps uint32, p uint32, txid uint64, commit uint32) {
+	fill(buf, byte('a'+txid%26), p)
+	if p == 1 {
+		copy(buf, "SQLite format 3\x00")
+		code := ps
+		if ps == 65536 {
+			code = 1
+		}
+		binary.BigEndian.PutUint16(buf[16:], uint16(code))
+		buf[18], buf[19] = 2, 2
+		binary.BigEndian.PutUint32(buf[24:], uint32(txid))
+		binary.BigEndian.PutUint32(buf[28:], commit)
+	}
+}
+
+func runFollow(c FollowCase, root string) (violation string, stats map[string]int) {
+	stats = map[string]int{}
+	dir, err := os.MkdirTemp(root, "follow")
+	if err != nil {
+		hx.Fatal(err)
+	}
+	defer os.RemoveAll(dir)
+	ps := c.PageSize
+	lock := ltx.LockPgno(ps)
+	client := file.NewReplicaClient(filepath.Join(dir, "replica"))
+	bg := context.Background()
+	where := fmt.Sprintf("page size %d, lock page %d", ps, lock)
+
+	// expected image: non-zero pages only
+	expect := map[uint32][]byte{}
+	var commit uint32
+	txid := uint64(0)
+	zero := make([]byte, ps)
+
+	// publish writes the LTX file(s) of one step with the real encoder and updates the expectation.
+	publish := func(st FStep) ltx.TXID {
+		prev := commit
+		minTx := txid + 1
+		maxTx := minTx
+		if st.Level == 1 {
+			maxTx = minTx + 1
+		}
+		var buf bytes.Buffer
+		enc, err := ltx.NewEncoder(&buf)
+		if err != nil {
+			hx.Fatal(err)
+		}
+		if err := enc.EncodeHeader(ltx.Header{Version: ltx.Version, Flags: ltx.HeaderFlagNoChecksum, PageSize: ps, Commit: st.Commit,
+			MinTXID: ltx.TXID(minTx), MaxTXID: ltx.TXID(maxTx), Timestamp: 1700000000000 + int64(maxTx)}); err != nil {
+			hx.Fatal(err)
+		}
+		// pages: page 1 always; every growth page (growth-complete, as litestream writes them), a few of
+		// them and one existing page with content; never the lock page (the encoder refuses it anyway)
+		content := map[uint32]bool{1: true}
+		if m := minU32(prev, st.Commit); m >= 2 {
+			content[2+uint32(maxTx)%(m-1)] = true // one already existing page is rewritten
+		} else if prev == 0 && st.Commit >= 2 {
+			content[2] = true
+		}
+		for _, p := range []uint32{lock - 1, lock + 1, st.Commit} {
+			if p > prev && p <= st.Commit && p != lock {
+				content[p] = true
+			}
+		}
+		page := make([]byte, ps)
+		emit := func(p uint32) {
+			if p == lock || p == 0 || p > st.Commit {
+				return
+			}
+			if content[p] {
+				followPage(page, ps, p, maxTx, st.Commit)
+				expect[p] = append([]byte(nil), page...)
+			} else {
+				copy(page, zero)
+				delete(expect, p)
+			}
+			if err := enc.EncodePage(ltx.PageHeader{Pgno: p}, page); err != nil {
+				hx.Fatal(fmt.Errorf("encode page %d: %w", p, err))
+			}
+		}
+		if minTx == 1 {
+			for p := uint32(1); p <= st.Commit; p++ {
+				emit(p)
+			}
+		} else {
+			var ps_ []uint32
+			for p := range content {
+				if p <= prev && p <= st.Commit {
+					ps_ = append(ps_, p)
+				}
+			}
+			sort.Slice(ps_, func(i, j int) bool { return ps_[i] < ps_[j] })
+			for _, p := range ps_ {
+				emit(p)
+			}
+			for p := prev + 1; p <= st.Commit; p++ {
+				emit(p)
+			}
+		}
+		if err := enc.Close(); err != nil {
+			hx.Fatal(err)
+		}
+		for p := range expect {
+			if p > st.Commit {
+				delete(expect, p)
+			}
+		}
+		if _, err := client.WriteLTXFile(bg, st.Level, ltx.TXID(minTx), ltx.TXID(maxTx), bytes.NewReader(buf.Bytes())); err != nil {
+			hx.Fatal(err)
+		}
+		commit = st.Commit
+		txid = maxTx
+		stats[fmt.Sprintf("published-L%d", st.Level)]++
+		return ltx.TXID(maxTx)
+	}
+
+	out := filepath.Join(dir, "follower.db")
+	// check compares the follower database with the expectation (and optionally a plain restore).
+	check := func(when string, plain bool) string {
+		f, err := os.Open(out)
+		if err != nil {
+			return fmt.Sprintf("follower database unreadable %s: %v", when, err)
+		}
+		defer f.Close()
+		fi, _ := f.Stat()
+		if want := int64(commit) * int64(ps); fi.Size() != want {
+			return fmt.Sprintf("follower database is %d bytes (%d pages) %s, committed size is %d pages (%s)", fi.Size(), fi.Size()/int64(ps), when, commit, where)
+		}
+		got := make([]byte, ps)
+		if lock <= commit {
+			if _, err := f.ReadAt(got, int64(lock-1)*int64(ps)); err != nil {
+				return fmt.Sprintf("follower lock page %d missing %s: %v (%s)", lock, when, err, where)
+			}
+			if !isZero(got) {
+				return fmt.Sprintf("follower lock page %d is not empty %s (%s)", lock, when, where)
+			}
+			stats["lock-page-present-and-empty"]++
+		}
+		mask := func(b []byte, p uint32) {
+			if p == 1 {
+				b[18], b[19] = 0, 0
+				copy(b[24:28], []byte{0, 0, 0, 0})
+			}
+		}
+		for p, want := range expect {
+			if _, err := f.ReadAt(got, int64(p-1)*int64(ps)); err != nil {
+				return fmt.Sprintf("follower page %d unreadable %s: %v", p, when, err)
+			}
+			w := append([]byte(nil), want...)
+			mask(w, p)
+			mask(got, p)
+			if !bytes.Equal(got, w) {
+				return fmt.Sprintf("follower page %d differs from the replicated state %s (%s)", p, when, where)
+			}
+		}
+		nz, err := countNonZeroPages(f, int(ps))
+		if err != nil {
+			hx.Fatal(err)
+		}
+		if nz != len(expect) {
+			return fmt.Sprintf("follower database has %d non-zero pages %s, replicated state has %d (%s)", nz, when, len(expect), where)
+		}
+		if !plain {
+			return ""
+		}
+		// reference: a plain restore to the follower's TXID
+		ref := filepath.Join(dir, "plain.db")
+		defer os.Remove(ref)
+		opt := litestream.NewRestoreOptions()
+		opt.OutputPath = ref
+		opt.TXID = ltx.TXID(txid)
+		if err := litestream.NewReplicaWithClient(nil, client).Restore(bg, opt); err != nil {
+			return fmt.Sprintf("plain Restore(TXID=%d) fails %s: %v (%s)", txid, when, err, where)
+		}
+		g, err := os.Open(ref)
+		if err != nil {
+			hx.Fatal(err)
+		}
+		defer g.Close()
+		gi, _ := g.Stat()
+		if gi.Size() != fi.Size() {
+			return fmt.Sprintf("follower database is %d bytes, plain Restore(TXID=%d) gives %d bytes %s (%s)", fi.Size(), txid, gi.Size(), when, where)
+		}
+		a, b := make([]byte, 1<<20), make([]byte, 1<<20)
+		f.Seek(0, io.SeekStart)
+		for off := int64(0); off < gi.Size(); off += int64(len(a)) {
+			n1, _ := io.ReadFull(f, a)
+			n2, _ := io.ReadFull(g, b)
+			if off == 0 && n1 >= 28 && n2 >= 28 {
+				mask(a, 1)
+				mask(b, 1)
+			}
+			if n1 != n2 || !bytes.Equal(a[:n1], b[:n2]) {
+				return fmt.Sprintf("follower database differs from plain Restore(TXID=%d) near byte %d %s (%s)", txid, off, when, where)
+			}
+		}
+		stats["plain-restore-compared"]++
+		return ""
+	}
+
+	for i := 0; i < c.Initial && i < len(c.Steps); i++ {
+		publish(c.Steps[i])
+	}
+	ctx, cancel := context.WithCancel(bg)
+	done := make(chan error, 1)
+	go func() {
+		opt := litestream.NewRestoreOptions()
+		opt.OutputPath = out
+		opt.Follow = true
+		opt.FollowInterval = 20 * time.Millisecond
+		rep := litestream.NewReplicaWithClient(nil, client)
+		done <- rep.Restore(ctx, opt)
+	}()
+	stop := func() {
+		cancel()
+		select {
+		case <-done:
+		case <-time.After(60 * time.Second):
+		}
+	}
+	defer stop()
+	waitFor := func(target ltx.TXID) string {
+		deadline := time.Now().Add(240 * time.Second)
+		for time.Now().Before(deadline) {
+			select {
+			case err := <-done:
+				done <- err
+				return fmt.Sprintf("follow-mode restore stopped before reaching TXID %d: %v (%s)", target, err, where)
+			default:
+			}
+			if t, err := litestream.ReadTXIDFile(out); err == nil && t >= target {
+				return ""
+			}
+			time.Sleep(15 * time.Millisecond)
+		}
+		return fmt.Sprintf("follow-mode restore did not reach TXID %d within 240 s (committed size %d pages, %s)", target, commit, where)
+	}
+	if why := waitFor(ltx.TXID(txid)); why != "" {
+		return why, stats
+	}
+	if why := check(fmt.Sprintf("after the initial restore to TXID %d (%d pages)", txid, commit), commit >= lock-1); why != "" {
+		return why, stats
+	}
+	stats["initial-restore-ok"]++
+	plainLeft := 2
+	for i := c.Initial; i < len(c.Steps); i++ {
+		st := c.Steps[i]
+		prev := commit
+		target := publish(st)
+		if why := waitFor(target); why != "" {
+			return why, stats
+		}
+		plain := false
+		if plainLeft > 0 && (st.Commit == lock && prev < lock || i == len(c.Steps)-1) {
+			plain = true
+			plainLeft--
+		}
+		how := "L0 file"
+		if st.Level == 1 {
+			how = "level-1 gap-fill file"
+		}
+		if why := check(fmt.Sprintf("after the follow loop applied the %s for TXID %d (%d -> %d pages)", how, target, prev, st.Commit), plain); why != "" {
+			return why, stats
+		}
+		switch {
+		case st.Commit == lock:
+			stats["applied:lock-last"]++
+		case st.Commit > lock:
+			stats["applied:lock-inside"]++
+		case st.Commit == lock-1:
+			stats["applied:lock-just-beyond"]++
+		default:
+			stats["applied:small"]++
+		}
+	}
+	return "", stats
+}
+
+func minU32(a, b uint32) uint32 {
+	if a < b {
+		return a
+	}
+	return b
+}
+
 // ---- thorough: one real SQLite database > 1 GiB (page size 65536) end to end ----
 
 func realBig(res *hx.Result, root string) {
@@ -1229,8 +1563,9 @@ func compareFiles(src, dst string, ps int, lock uint32) string {
 
 func main() {
 	o := hx.ParseFlags("C17")
+	slog.SetDefault(quiet) // a Replica without a DB logs through the default logger
 	res := hx.NewResult(o, "c17: real writeLTXFromDB/writeLTXFromWAL on sparse files across the lock page vs Lean emittedFromDB/emittedFromWAL + restore oracle")
-	res.Rule = "file-vs-WAL family: database FILE below / exactly at / just past the lock page while the WAL's commit size is beyond it, on the hook-level snapshot writer (sparse files) and on real SQLite databases (sparse file with patched header page count, growth across the lock page in the uncheckpointed WAL) through first sync after open, verify-triggered re-snapshot after a WAL restart, DB.Snapshot, DB.SnapshotReader, Restore (latest and snapshot-only) with page compare and lock-page scan of every replicated file; incremental path: for each of the 8 page sizes, seeded cases with (prevCommit, commit) placing the lock page inside / last / just beyond / growth across the boundary in one sync / shrink across it / growth from the lock page, WAL page sets around the boundary (rarely including the lock page itself: expected encoder refusal); snapshot path: sparse databases of 1 GiB+ with the lock page inside / last / just beyond, optionally followed by an incremental file growing across the boundary, restored through ltx.Compactor + DecodeDatabaseTo and compared at every page. thorough adds all page sizes for the snapshot path and one real SQLite database > 1 GiB (page size 65536). non-trivial = every case; distinct = canonical JSON"
+	res.Rule = "follow-mode family: Restore(Follow=true) over synthesised growth-complete LTX replicas (real ltx.Encoder) whose database jumps in one applied file from a few pages to lockPgno-1 / lockPgno / lockPgno+1 / lockPgno+3 and shrinks back across the boundary, as initial restore, as L0 files applied by the follow loop and as level-1 gap-fill files; after every applied file: follower size = commit*pageSize, lock page present and zero, every page equals the replicated state, and (at lock-page-last states and at the end) byte-equal to a plain Restore(TXID=sidecar); file-vs-WAL family: database FILE below / exactly at / just past the lock page while the WAL's commit size is beyond it, on the hook-level snapshot writer (sparse files) and on real SQLite databases (sparse file with patched header page count, growth across the lock page in the uncheckpointed WAL) through first sync after open, verify-triggered re-snapshot after a WAL restart, DB.Snapshot, DB.SnapshotReader, Restore (latest and snapshot-only) with page compare and lock-page scan of every replicated file; incremental path: for each of the 8 page sizes, seeded cases with (prevCommit, commit) placing the lock page inside / last / just beyond / growth across the boundary in one sync / shrink across it / growth from the lock page, WAL page sets around the boundary (rarely including the lock page itself: expected encoder refusal); snapshot path: sparse databases of 1 GiB+ with the lock page inside / last / just beyond, optionally followed by an incremental file growing across the boundary, restored through ltx.Compactor + DecodeDatabaseTo and compared at every page. thorough adds all page sizes for the snapshot path and one real SQLite database > 1 GiB (page size 65536). non-trivial = every case; distinct = canonical JSON"
 	root, err := os.MkdirTemp("", "c17-")
 	if err != nil {
 		hx.Fatal(err)
@@ -1289,16 +1624,27 @@ func main() {
 			res.AddFinding("violation", "C17/real-"+sigOf(v), v, map[string]any{"short": c})
 		}
 	}
+	recordFollow := func(c FollowCase, v string, stats map[string]int, secs float64) {
+		res.Case(c.canon(), true)
+		res.Count(fmt.Sprintf("follow:ps=%d", c.PageSize))
+		for k, n := range stats {
+			res.Distribution["follow:"+k] += n
+		}
+		res.Sample(map[string]any{"kind": "follow", "page_size": c.PageSize, "initial": c.Initial, "steps": c.Steps, "seconds": secs})
+		if v != "" {
+			res.AddFinding("violation", "C17/follow-"+sigOf(v), v, map[string]any{"follow": c})
+		}
+	}
 	// evalPar runs the slow (~1 GiB each) cases concurrently: hook-level snapshot cases (each with
 	// its own driver) and real-SQLite short-file scenarios.
-	evalPar := func(cs []Case, shorts []ShortCase) {
+	evalPar := func(cs []Case, shorts []ShortCase, follows []FollowCase) {
 		type out struct {
 			v     verdict
 			sv    string
 			stats map[string]int
 			secs  float64
 		}
-		outs := make([]out, len(cs)+len(shorts))
+		outs := make([]out, len(cs)+len(shorts)+len(follows))
 		var wg sync.WaitGroup
 		sem := make(chan struct{}, 8)
 		for i := 0; i < len(outs); i++ {
@@ -1308,6 +1654,11 @@ func main() {
 				sem <- struct{}{}
 				defer func() { <-sem }()
 				t0 := time.Now()
+				if i >= len(cs)+len(shorts) {
+					v, st := runFollow(follows[i-len(cs)-len(shorts)], root)
+					outs[i] = out{sv: v, stats: st, secs: time.Since(t0).Seconds()}
+					return
+				}
 				if i >= len(cs) {
 					v, st := runShort(shorts[i-len(cs)], root)
 					outs[i] = out{sv: v, stats: st, secs: time.Since(t0).Seconds()}
@@ -1329,6 +1680,10 @@ func main() {
 			o := outs[len(cs)+i]
 			recordShort(c, o.sv, o.stats, o.secs)
 		}
+		for i, c := range follows {
+			o := outs[len(cs)+len(shorts)+i]
+			recordFollow(c, o.sv, o.stats, o.secs)
+		}
 	}
 
 	if o.Replay != "" {
@@ -1338,12 +1693,21 @@ func main() {
 		}
 		var rf struct {
 			Replay struct {
-				Case  Case       `json:"case"`
-				Short *ShortCase `json:"short"`
+				Case   Case        `json:"case"`
+				Short  *ShortCase  `json:"short"`
+				Follow *FollowCase `json:"follow"`
 			} `json:"replay"`
 		}
 		if err := json.Unmarshal(b, &rf); err != nil {
 			hx.Fatal(err)
+		}
+		if rf.Replay.Follow != nil {
+			v, st := runFollow(*rf.Replay.Follow, root)
+			fmt.Printf("follow case: %s\nstats: %v\nviolation: %q\n", rf.Replay.Follow.canon(), st, v)
+			if v != "" {
+				os.Exit(1)
+			}
+			return
 		}
 		if rf.Replay.Short != nil {
 			v, st := runShort(*rf.Replay.Short, root)
@@ -1370,14 +1734,20 @@ func main() {
 			}
 			var rf struct {
 				Replay struct {
-					Case  Case       `json:"case"`
-					Short *ShortCase `json:"short"`
+					Case   Case        `json:"case"`
+					Short  *ShortCase  `json:"short"`
+					Follow *FollowCase `json:"follow"`
 				} `json:"replay"`
 			}
 			if json.Unmarshal(b, &rf) != nil {
 				continue
 			}
-			if rf.Replay.Short != nil {
+			if rf.Replay.Follow != nil {
+				res.Count("corpus")
+				t0 := time.Now()
+				v, st := runFollow(*rf.Replay.Follow, root)
+				recordFollow(*rf.Replay.Follow, v, st, time.Since(t0).Seconds())
+			} else if rf.Replay.Short != nil {
 				res.Count("corpus")
 				t0 := time.Now()
 				v, st := runShort(*rf.Replay.Short, root)
@@ -1433,8 +1803,18 @@ func main() {
 		snaps = append(snaps, genSnapFile(rnd, 65536, 0), genSnapFile(rnd, 65536, 1), genSnapFile(rnd, 16384, int(o.Seed%3)))
 		shorts = append(shorts, genShort(rnd, 65536, int(o.Seed%2), "first-sync"), genShort(rnd, 65536, 1, "verify-snapshot"))
 	}
+	// follow-mode restore over synthesised replicas that grow / shrink across the lock page
+	var follows []FollowCase
+	if o.Tier == "thorough" {
+		for kind := 0; kind < 5; kind++ {
+			follows = append(follows, genFollow(rnd, 65536, kind))
+		}
+		follows = append(follows, genFollow(rnd, 32768, 0), genFollow(rnd, 32768, 1), genFollow(rnd, 4096, 0), genFollow(rnd, 4096, 4))
+	} else {
+		follows = append(follows, genFollow(rnd, 65536, 0), genFollow(rnd, 65536, 1+int(o.Seed%4)))
+	}
 	if len(res.Findings) < 4 {
-		evalPar(snaps, shorts)
+		evalPar(snaps, shorts, follows)
 	}
 	if o.Tier == "thorough" && len(res.Findings) == 0 {
 		realBig(res, root)
